@@ -15,6 +15,10 @@ NA = {
 PENDING = "static check designed in DESIGN.md section 3 but not built yet; not claimed until it exists"
 
 CHECKS = {
+ "C08": dict(level="other", technique="pointer-provenance abstract interpretation of object code against argument roles derived from the wrappers' prototypes; constant opmask tracking for masked loads; IR edge-dominance for the rolling-hash window",
+   text="PARTIAL. Decided for all 143 AES CPU-specific entry points: no store's address derives solely from an argument whose pointee is const in the wrapper's prototype (keys, schedules, IV, tweak, AAD, input) - 'inputs are never modified'; every load at a constant offset from a fixed-extent input stays within its extent (GCM IV 12 bytes incl. masked 16-byte loads whose constant opmask selects 12, XTS tweak 16, raw keys 16/24/32, key schedules 16*(Nr+1), GCM key data = sizeof the struct) and such inputs are never register-indexed; in _rolling_hash2_run the look-back addresses buffer-w are formed only after the window has been filled. NOT decided: bounds of variable-length buffers (all len mod 16/64 tails), reads of the GHASH key-power table at a computed index, the hash/multi-hash kernels' data reads.",
+   note="A necessary condition (no write through inputs, no over-read of fixed-size operands), not the full range property. Trusted: const-ness in the wrappers' prototypes; MC operand tables.",
+   ref="3/C08"),
  "C09": dict(level="other", technique="IR global-initialiser comparison against a pinned table, whole-library writer scan, must-pass-through on the run function's CFG, load-provenance in the scan loops' object code",
    text="PARTIAL. Decided: (1) the 256 64-bit initialisers of rolling_hash2_table1 equal the pinned definition, nothing in the library writes the table, and init fills state->table1 from it alone - the 'fixed function defined by the library's constant table, across versions' clause; (2) every path of _rolling_hash2_run to its return passes a store to *offset, a store to state->hash and a copy into state->history, so a following run resumes from exactly the window state - the structural half of 'independent of call splitting'; (3) the three scan-loop implementations read table entries only through their t1/t2 arguments. NOT decided: that the reported offset is the first match and that the SSE/AVX2 scan loops compute the same function as the C loop.",
    note="Necessary structural conditions; the value clauses are declared undecided. The pinned table was taken from this tree (digits of pi).",
